@@ -26,7 +26,7 @@ TRUSTED_BASE = [
     "harness/consts_from_source.py (AST reader that regenerates Generated/Constants.v from /repo)",
     "harness/pipeline_from_source.py (AST translator: preProcessor.initDefaultFilters -> Generated/Pipelines.v; its output is compared with the real pre-processor objects over all option combinations in C01 / C02)",
     "harness/info_from_source.py (AST translator: the vertical-metric fallback functions, getAttrWithFallback, specialFallbacks / staticFallbackData of fontInfoData.py -> Generated/InfoFallbacks.v, fail-closed; proved equal to the hand model that the C16 correspondence runs against the real functions, and to the documented fallbacks)",
-    "harness/imp_from_source.py (AST translator for an imperative fragment -- lists / sets of names mutated inside if / for: util.makeOfficialGlyphOrder -> Generated/Imp.v, fail-closed; proved equal to the hand model of Order/GlyphOrder.v)",
+    "harness/imp_from_source.py (AST translator for an imperative fragment -- lists / sets of names and insertion-ordered dicts mutated inside if / nested for, continue, raise: util.makeOfficialGlyphOrder and util.makeUnicodeToGlyphNameMapping -> Generated/Imp.v, fail-closed; proved equal to the hand models of Order/GlyphOrder.v)",
     "Python harness: generators, font builders, observers, Gallina term printer (harness/gterm.py)",
     "fontTools/ufoLib2/defcon behaviour is modelled or observed, not verified",
 ]
